@@ -2,6 +2,7 @@ package main
 
 import (
 	"fmt"
+	"sort"
 	"strings"
 
 	"verif/hdr"
@@ -237,6 +238,52 @@ var oracleC18 = oracle{post: func(c *checker) {
 				}
 			}
 		}
+		// headers the repository does not know: submitted and refused (too deep a fork, wrong chain,
+		// orphan ...), or never submitted. A proof whose path is right for such a header must fail in
+		// every form.
+		removed := map[string]bool{}
+		for _, l := range w.Removed {
+			removed[l] = true
+		}
+		var foreign []string
+		for l := range w.Submitted {
+			if w.Tree.Get(hdr.RH(hdr.Get(l).Hash)) == nil && !removed[l] && !w.IsMarkedLabel(l) {
+				foreign = append(foreign, l)
+			}
+		}
+		sort.Strings(foreign)
+		for _, l := range []string{"G/x", t.Label + "/x"} {
+			if !w.Submitted[l] {
+				foreign = append(foreign, l)
+			}
+		}
+		for _, l := range foreign {
+			u := hdr.Get(l)
+			base := modelProof(u.TxIDs, 0)
+			for _, mode := range []string{"with-header", "hash-only", "both"} {
+				q := copyProof(base)
+				if mode != "hash-only" {
+					h := u.Header.Copy()
+					q.BlockHeader = &h
+				}
+				if mode != "with-header" {
+					h := u.Hash
+					q.BlockHash = &h
+				}
+				height, best, err := w.Repo.VerifyMerkleProof(w.Ctx, q)
+				c.n++
+				c.count("proofs_unknown_header", 1)
+				if err == nil {
+					class := "never-submitted"
+					if w.Submitted[l] {
+						class = "refused"
+					}
+					c.fail("proof-for-unknown-header-accepted", class+"|"+mode,
+						fmt.Sprintf("proof for tx 0 of %s, a header the repository %s (%s), verified with (%d,%t)", l, class, mode, height, best))
+					return nil
+				}
+			}
+		}
 		return nil
 	})
 	if p != "" {
@@ -288,7 +335,9 @@ var oracleC19 = oracle{post: func(c *checker) {
 	var firstReplies []string
 	bases := branchBases(w)
 	_, p := hdr.Safe(func() error {
-		for _, max := range []int{1, 2, 3, 10, 50} {
+		// 50 first: with locators observed after every operation (hdr.World requests max 50) the first
+		// request here repeats the previous one, the way a poll repeats the previous poll
+		for _, max := range []int{50, 10, 3, 2, 1} {
 			loc, err := w.Repo.GetLocatorHashes(w.Ctx, max)
 			c.n++
 			if err != nil {
